@@ -35,7 +35,7 @@ LEAN_EXTRA = [
     "MiciVerif.Model.Stagers", "MiciVerif.Model.Sampler", "MiciVerif.Model.SamplerCount",
     "MiciVerif.Model.SamplerDriver", "MiciVerif.Proto",
 ]
-GENERATED = True
+GENERATED = ["stat_types"]
 
 
 class _Timeout(Exception):
